@@ -164,6 +164,19 @@ def gen_C03(g, tier):
     big = [1 << 63, 1 << 62, (1 << 63) + (1 << 62), (1 << 64) - 1, (1 << 64) - 2]
     for c in CODECS:
         w = g.width[c]
+        # method-call forms on an OWNED receiver (inherent methods of Seq take precedence over SeqSlice's through Deref):
+        # every position whose symbol straddles a storage word, the ends, one past the end
+        for n in ([0, 1, 64 // w + 3, 192 // w + 2] if tier == "quick" else [0, 1, 2, 64 // w, 64 // w + 3, 128 // w + 2, 192 // w + 2, 320 // w + 1]):
+            t = g.text(c, n)
+            straddle = [i for i in range(n) if (i * w) // 64 != ((i + 1) * w - 1) // 64]
+            for i in sorted(set(straddle) | {0, n // 2, max(n - 1, 0), n, n + 1}):
+                lines.append(f"{c} owned {i} p str {hx(t)}")
+            if n >= 2:
+                lines.append(f"{c} owned {n - 2} own {offset_slice(g, c, t, r.randrange(1, 64 // w + 2))}")
+                lines.append(f"{c} owned {r.randrange(n)} trunc {n - 1} p str {hx(t)}")
+                av = alt_value(g, c, n)
+                if av:
+                    lines.append(f"{c} owned {r.randrange(n)} {av}")
         ns = [64 // w + 3, 128 // w + 2] if tier == "quick" else [64 // w + 3, 128 // w + 2, 192 // w + 1, 5]
         for n in ns:
             t = g.text(c, n)
@@ -316,7 +329,8 @@ def rand_value(g, c, depth, maxlen=70):
     if k == 5:
         m = r.randrange(0, 6)
         if r.random() < 0.5:
-            return f"extk {r.choice(['filter', 'takewhile', 'fromfn', 'trait'])} {hx(g.text(c, m))} {v}", n + m
+            kind = r.choice(['filter', 'takewhile', 'fromfn', 'trait', 'iterskip', 'iternext', 'iterpeek', 'reviterskip'])
+            return f"extk {kind} {hx(g.text(c, m))} {v}", n + (max(m - 1, 0) if kind in ('iterskip', 'iternext', 'reviterskip') else m)
         return f"ext {hx(g.text(c, m))} {v}", n + m
     if k in (6, 7):
         e, m = rand_slice(g, c, depth - 1, 20 if r.random() < 0.7 else 70)
@@ -467,7 +481,7 @@ def gen_C06(g, tier):
                 lines.append(f"{c} show ext {hx(g.text(c, 3))} {shrink} {base}")
                 lines.append(f"{c} show append {shrink} {base} p str {hx(g.text(c, 2))}")
                 lines.append(f"{c} raw push 0 {shrink} {base}")
-            for kind in ("filter", "takewhile", "fromfn", "trait"):
+            for kind in ("filter", "takewhile", "fromfn", "trait", "iterskip", "iternext", "iterpeek", "reviterskip"):
                 for m in (0, 1, 3, 64 // w + 1):
                     lines.append(f"{c} show extk {kind} {hx(g.text(c, m))} {base}")
                     lines.append(f"{c} show push 1 extk {kind} {hx(g.text(c, m))} {base}")
@@ -825,6 +839,28 @@ def gen_C04(g, tier):
             m = r.randrange(0, (k * 64) // w + 3)
             lines.append(f"{c} show fromwords {m} {k} {' '.join(map(str, ws))}".rstrip())
             lines.append(f"{c} raw fromwords {m} {k} {' '.join(map(str, ws))}".rstrip())
+        # a sequence rebuilt from a raw image that holds MORE symbols than requested (bits above the length in the last
+        # word) is the parsed prefix: equal in every owned pairing, same hash, same order, usable as a map key
+        for n in sorted({1, 2, per - 1, per, per + 1}):
+            t = g.text(c, n + 3)
+            for m in sorted({0, 1, n - 1, n}):
+                if 0 <= m <= n:
+                    lines.append(f"{c} eqfresh fromraw {m} p str {hx(t)}")
+                    lines.append(f"{c} eq seq_seq fromraw {m} p str {hx(t)} p str {hx(t[:m])}")
+                    lines.append(f"{c} eq refseq_seq p str {hx(t[:m])} fromraw {m} p str {hx(t)}")
+        # word geometry: copies (to_owned and everything built on it) of windows whose bit length is a whole number of
+        # words but which start off a word boundary: the copy's raw image starts at bit 0
+        import math
+        pw = math.lcm(64, w) // w
+        for n in (pw, 2 * pw):
+            t = g.text(c, n)
+            for lead in ((1, pw - 1) if tier == "quick" else (1, 2, pw // 2, pw - 1, pw + 1)):
+                sl = offset_slice(g, c, t, lead)
+                lines.append(f"{c} raw own {sl}")
+                lines.append(f"{c} show fromraw {n} own {sl}")
+                lines.append(f"{c} raw storev {sl}")
+                lines.append(f"{c} raw and {sl} {sl}")
+                lines.append(f"{c} raw push 0 own sl r {lead} {lead} p str {hx(t)}")
         # the by-value integer of an owned sequence whose bit vector starts mid-word (From<&BitSlice>): content may span two words
         for off in ((1, 60, 63) if tier == "quick" else range(1, 64)):
             for n in sorted({1, per - 1, per}):
